@@ -48,6 +48,9 @@ type itr struct {
 	inout    map[string][]int   // translated function -> indices of pointer parameters returned as results
 	retExtra []string           // names of the in-out parameters of the function being translated
 	relVar   map[string]string  // rf (from rf, ok := f.(*RelationFilter)) -> variable holding the optional target
+	view     map[string][]string // struct -> the fields that are translated (a view of a larger struct)
+	loopExtra []string          // outer locals a loop body assigns: part of the loop state
+	castVar  map[string]string  // cached (from cached, ok := f.(*CachedFilter)) -> variable holding the optional value
 }
 
 func (t *itr) fail(format string, a ...interface{}) string {
@@ -491,6 +494,9 @@ func (t *itr) conv(to types.Type, arg ast.Expr, pre *[]string) string {
 		b, ok := tp.Underlying().(*types.Basic)
 		return ok && b.Kind() == types.Int32
 	}
+	if isI32(to) && isI32(from) {
+		return v
+	}
 	if isI32(to) && isInt(from) {
 		return fmt.Sprintf("(BitVec.ofInt 32 %s)", v)
 	}
@@ -549,6 +555,9 @@ func (t *itr) call(x *ast.CallExpr, pre *[]string, wantValue bool) string {
 			*pre = append(*pre, fmt.Sprintf("let %s ← GoSlice.make (α := %s) %s %s", v, t.leanType(sl.Elem()), l, c))
 			return v
 		case "append":
+			if len(x.Args) == 2 && x.Ellipsis != token.NoPos {
+				return fmt.Sprintf("(GoSlice.appendAll %s %s)", t.expr(x.Args[0], pre), t.expr(x.Args[1], pre))
+			}
 			if len(x.Args) != 2 || x.Ellipsis != token.NoPos {
 				return t.fail("unsupported append")
 			}
@@ -869,6 +878,7 @@ func (t *itr) stateTuple() string {
 		vs = append(vs, t.recv)
 	}
 	vs = append(vs, t.retExtra...)
+	vs = append(vs, t.loopExtra...)
 	if len(vs) == 1 {
 		return vs[0]
 	}
@@ -1023,6 +1033,25 @@ func (t *itr) stmts(list []ast.Stmt, ind string) []string {
 				return append(out, t.stmts(rest, ind)...)
 			}
 			if ix, ok := x.Rhs[0].(*ast.IndexExpr); ok && isMapT(t.typeOf(ix.X)) && x.Tok == token.DEFINE {
+				if sel, ok := ix.X.(*ast.SelectorExpr); ok {
+					if tn, ok := t.tokenOf(t.typeOf(sel.X)); ok {
+						// a map field of an object outside the module: an uninterpreted lookup
+						ext, ok := t.tokExt[tn+"."+sel.Sel.Name]
+						if !ok {
+							return append(out, ind+t.fail("map member %s.%s", tn, sel.Sel.Name))
+						}
+						f := t.tmp("f")
+						pre = append(pre, fmt.Sprintf("let %s := %s %s %s", f, ext, t.expr(sel.X, &pre), t.expr(ix.Index, &pre)))
+						if id, ok := x.Lhs[0].(*ast.Ident); ok && id.Name != "_" {
+							pre = append(pre, fmt.Sprintf("let %s := (%s).getD default", id.Name, f))
+						}
+						if id, ok := x.Lhs[1].(*ast.Ident); ok && id.Name != "_" {
+							pre = append(pre, fmt.Sprintf("let %s := (%s).isSome", id.Name, f))
+						}
+						emit(pre)
+						return append(out, t.stmts(rest, ind)...)
+					}
+				}
 				// v, ok := m[k]
 				mv := t.expr(ix.X, &pre)
 				kv := t.expr(ix.Index, &pre)
@@ -1039,11 +1068,22 @@ func (t *itr) stmts(list []ast.Stmt, ind string) []string {
 			}
 			if ta, ok := x.Rhs[0].(*ast.TypeAssertExpr); ok && x.Tok == token.DEFINE {
 				// v, ok := x.(*T): only the flag is translated, as an uninterpreted predicate on the value
+				tn := types.ExprString(ta.Type)
+				tn = strings.TrimPrefix(tn, "*")
+				if id, isId := x.Lhs[0].(*ast.Ident); isId && id.Name != "_" && tn == "CachedFilter" {
+					// cached, ok := f.(*CachedFilter): the registered filter behind the value, if it is one
+					v := t.tmp("f")
+					pre = append(pre, fmt.Sprintf("let %s := asCachedFilterF %s", v, t.expr(ta.X, &pre)))
+					pre = append(pre, fmt.Sprintf("let %s := (%s).getD default", id.Name, v))
+					if id2, ok := x.Lhs[1].(*ast.Ident); ok && id2.Name != "_" {
+						pre = append(pre, fmt.Sprintf("let %s := (%s).isSome", id2.Name, v))
+					}
+					emit(pre)
+					return append(out, t.stmts(rest, ind)...)
+				}
 				if id, isId := x.Lhs[0].(*ast.Ident); !isId || id.Name != "_" {
 					return append(out, ind+t.fail("the value of a type assertion is not supported"))
 				}
-				tn := types.ExprString(ta.Type)
-				tn = strings.TrimPrefix(tn, "*")
 				pred := "is" + tn + "F"
 				if _, known := t.extOwner[pred]; !known {
 					return append(out, ind+t.fail("type assertion to %s", tn))
@@ -1114,6 +1154,30 @@ func (t *itr) stmts(list []ast.Stmt, ind string) []string {
 		}
 		emit(pre)
 		return append(out, t.stmts(rest, ind)...)
+	case *ast.DeclStmt:
+		gd, ok := x.Decl.(*ast.GenDecl)
+		if !ok || gd.Tok != token.VAR {
+			return append(out, ind+t.fail("unsupported declaration"))
+		}
+		for _, sp := range gd.Specs {
+			vs := sp.(*ast.ValueSpec)
+			for i, n := range vs.Names {
+				if len(vs.Values) > i {
+					pre := []string{}
+					v := t.expr(vs.Values[i], &pre)
+					emit(pre)
+					out = append(out, fmt.Sprintf("%slet %s := %s", ind, n.Name, v))
+				} else {
+					out = append(out, fmt.Sprintf("%slet %s : %s := default", ind, n.Name, t.leanType(t.typeOf(vs.Type))))
+				}
+			}
+		}
+		return append(out, t.stmts(rest, ind)...)
+	case *ast.ForStmt:
+		if lines, ok := t.countLoop(x, rest, ind); ok {
+			return append(out, lines...)
+		}
+		return append(out, ind+t.fail("unsupported for loop"))
 	case *ast.BranchStmt:
 		if x.Tok == token.CONTINUE && t.loopVar != "" {
 			return append(out, ind+"pure "+t.loopVar)
@@ -1184,7 +1248,7 @@ func (t *itr) stmts(list []ast.Stmt, ind string) []string {
 // body only changes the receiver (through paths) and its own locals. The loop becomes a monadic
 // fold over the indices 0..len(X)-1 (len evaluated once, as in Go); `continue` ends one step.
 func (t *itr) rangeLoop(x *ast.RangeStmt, rest []ast.Stmt, ind string) ([]string, bool) {
-	if t.recv == "" || t.loopVar != "" || x.Tok != token.DEFINE || !isSliceT(t.typeOf(x.X)) {
+	if t.recv == "" || x.Tok != token.DEFINE || !isSliceT(t.typeOf(x.X)) {
 		return nil, false
 	}
 	for _, e := range t.retExtra {
@@ -1194,7 +1258,12 @@ func (t *itr) rangeLoop(x *ast.RangeStmt, rest []ast.Stmt, ind string) ([]string
 	if !ok {
 		return nil, false
 	}
-	// the body must not assign to variables declared outside it, other than through the receiver
+	keyName := key.Name
+	if keyName == "_" {
+		keyName = t.tmp("k")
+	}
+	// variables declared outside the body that it assigns become part of the loop state
+	outer := []string{}
 	declared := map[string]bool{key.Name: true}
 	if v, ok := x.Value.(*ast.Ident); ok {
 		declared[v.Name] = true
@@ -1208,7 +1277,15 @@ func (t *itr) rangeLoop(x *ast.RangeStmt, rest []ast.Stmt, ind string) ([]string
 					if s.Tok == token.DEFINE {
 						declared[id.Name] = true
 					} else if !declared[id.Name] && id.Name != "_" {
-						bad = true
+						seen := false
+						for _, o := range outer {
+							if o == id.Name {
+								seen = true
+							}
+						}
+						if !seen {
+							outer = append(outer, id.Name)
+						}
 					}
 				}
 			}
@@ -1218,16 +1295,27 @@ func (t *itr) rangeLoop(x *ast.RangeStmt, rest []ast.Stmt, ind string) ([]string
 			if s.Tok != token.CONTINUE {
 				bad = true
 			}
-		case *ast.RangeStmt, *ast.ForStmt:
-			if n != ast.Node(x.Body) {
-				bad = true
+		case *ast.DeclStmt:
+			if gd, ok := s.Decl.(*ast.GenDecl); ok {
+				for _, sp := range gd.Specs {
+					if vs, ok := sp.(*ast.ValueSpec); ok {
+						for _, n := range vs.Names {
+							declared[n.Name] = true
+						}
+					}
+				}
 			}
+		case *ast.RangeStmt:
+			bad = true
 		}
 		return true
 	})
 	if bad {
 		return nil, false
 	}
+	savedExtra := t.loopExtra
+	t.loopExtra = append(append([]string{}, savedExtra...), outer...)
+	defer func() { t.loopExtra = savedExtra }()
 	out := []string{}
 	pre := []string{}
 	xs := t.expr(x.X, &pre)
@@ -1235,12 +1323,12 @@ func (t *itr) rangeLoop(x *ast.RangeStmt, rest []ast.Stmt, ind string) ([]string
 		out = append(out, ind+l)
 	}
 	n := t.tmp("n")
-	iN := key.Name + "N"
+	iN := keyName + "N"
 	out = append(out, fmt.Sprintf("%slet %s := (%s).size", ind, n, xs))
 	st := t.stateTuple()
 	out = append(out, fmt.Sprintf("%slet %s ← (List.range %s).foldlM (fun %s %s => do", ind, st, n, st, iN))
 	bi := ind + "    "
-	out = append(out, fmt.Sprintf("%slet %s : Int := ((%s : Nat) : Int)", bi, key.Name, iN))
+	out = append(out, fmt.Sprintf("%slet %s : Int := ((%s : Nat) : Int)", bi, keyName, iN))
 	if v, ok := x.Value.(*ast.Ident); ok && v.Name != "_" {
 		pre2 := []string{}
 		xs2 := t.expr(x.X, &pre2)
@@ -1249,6 +1337,7 @@ func (t *itr) rangeLoop(x *ast.RangeStmt, rest []ast.Stmt, ind string) ([]string
 		}
 		out = append(out, fmt.Sprintf("%slet %s ← GoSlice.get %s %s", bi, v.Name, xs2, iN))
 	}
+	savedLoopVar := t.loopVar
 	t.loopVar = st
 	savedAlias := t.alias
 	t.alias = map[string]ast.Expr{}
@@ -1257,7 +1346,103 @@ func (t *itr) rangeLoop(x *ast.RangeStmt, rest []ast.Stmt, ind string) ([]string
 	}
 	out = append(out, t.stmts(x.Body.List, bi)...)
 	t.alias = savedAlias
-	t.loopVar = ""
+	t.loopVar = savedLoopVar
+	out = append(out, fmt.Sprintf("%s  ) %s", ind, st))
+	out = append(out, t.stmts(rest, ind)...)
+	return out, true
+}
+
+// countLoop: for j = 0; j < n; j++ { body } with j, n of type int32 (j declared before the loop and
+// not used after it): a monadic fold over 0..n-1 (no iteration for n ≤ 0).
+func (t *itr) countLoop(x *ast.ForStmt, rest []ast.Stmt, ind string) ([]string, bool) {
+	init, ok1 := x.Init.(*ast.AssignStmt)
+	cond, ok2 := x.Cond.(*ast.BinaryExpr)
+	post, ok3 := x.Post.(*ast.IncDecStmt)
+	if !ok1 || !ok2 || !ok3 || t.recv == "" {
+		return nil, false
+	}
+	jv, ok := init.Lhs[0].(*ast.Ident)
+	if !ok || len(init.Lhs) != 1 || init.Tok != token.ASSIGN {
+		return nil, false
+	}
+	if tv, ok := t.p.info.Types[init.Rhs[0]]; !ok || tv.Value == nil || constant.Sign(tv.Value) != 0 {
+		return nil, false
+	}
+	cj, ok := cond.X.(*ast.Ident)
+	pj, ok2b := post.X.(*ast.Ident)
+	if !ok || !ok2b || cj.Name != jv.Name || pj.Name != jv.Name || cond.Op != token.LSS || post.Tok != token.INC {
+		return nil, false
+	}
+	if b, ok := t.typeOf(jv).Underlying().(*types.Basic); !ok || b.Kind() != types.Int32 {
+		return nil, false
+	}
+	// the counter must not be used after the loop
+	used := false
+	for _, r := range rest {
+		ast.Inspect(r, func(n ast.Node) bool {
+			if id, ok := n.(*ast.Ident); ok && id.Name == jv.Name {
+				used = true
+			}
+			return true
+		})
+	}
+	if used {
+		return nil, false
+	}
+	// outer locals assigned in the body (other than the counter) join the loop state
+	outer := []string{}
+	declared := map[string]bool{jv.Name: true}
+	bad := false
+	ast.Inspect(x.Body, func(n ast.Node) bool {
+		switch s := n.(type) {
+		case *ast.AssignStmt:
+			for _, l := range s.Lhs {
+				if id, ok := l.(*ast.Ident); ok {
+					if s.Tok == token.DEFINE {
+						declared[id.Name] = true
+					} else if !declared[id.Name] && id.Name != "_" {
+						seen := false
+						for _, o := range append(outer, t.loopExtra...) {
+							if o == id.Name {
+								seen = true
+							}
+						}
+						if !seen {
+							outer = append(outer, id.Name)
+						}
+					}
+				}
+			}
+		case *ast.ReturnStmt, *ast.ForStmt, *ast.RangeStmt:
+			bad = true
+		case *ast.BranchStmt:
+			if s.Tok != token.CONTINUE {
+				bad = true
+			}
+		}
+		return true
+	})
+	if bad {
+		return nil, false
+	}
+	savedExtra := t.loopExtra
+	t.loopExtra = append(append([]string{}, savedExtra...), outer...)
+	defer func() { t.loopExtra = savedExtra }()
+	out := []string{}
+	pre := []string{}
+	nv := t.expr(cond.Y, &pre)
+	for _, l := range pre {
+		out = append(out, ind+l)
+	}
+	st := t.stateTuple()
+	jN := jv.Name + "N"
+	out = append(out, fmt.Sprintf("%slet %s ← (List.range ((%s).toInt.toNat)).foldlM (fun %s %s => do", ind, st, nv, st, jN))
+	bi := ind + "    "
+	out = append(out, fmt.Sprintf("%slet %s : BitVec 32 := BitVec.ofNat 32 %s", bi, jv.Name, jN))
+	savedLoopVar := t.loopVar
+	t.loopVar = st
+	out = append(out, t.stmts(x.Body.List, bi)...)
+	t.loopVar = savedLoopVar
 	out = append(out, fmt.Sprintf("%s  ) %s", ind, st))
 	out = append(out, t.stmts(rest, ind)...)
 	return out, true
@@ -1308,6 +1493,17 @@ func (t *itr) emitStruct(sb *strings.Builder, name string) {
 	fmt.Fprintf(sb, "/-- %s:%d `%s` -/\nstructure %s%s where\n", relPath(pos.Filename), pos.Line, name, name, tparams)
 	for i := 0; i < st.NumFields(); i++ {
 		f := st.Field(i)
+		if v, ok := t.view[name]; ok {
+			keep := false
+			for _, k := range v {
+				if k == f.Name() {
+					keep = true
+				}
+			}
+			if !keep {
+				continue
+			}
+		}
 		fmt.Fprintf(sb, "  %s : %s\n", f.Name(), t.leanType(f.Type()))
 	}
 	fmt.Fprintf(sb, "deriving Repr, Inhabited, DecidableEq\n\n")
@@ -1439,9 +1635,24 @@ func genPools(repo string, tiny bool) (string, []string) {
 	t.extOwner = map[string]string{"isRelationF": "componentRegistry.isRelation", "getArchetypesF": "Cache.getArchetypes",
 		"isCachedFilterF": "assert.CachedFilter"}
 	t.fieldExt = map[string]string{"Cache.getArchetypes": "getArchetypesF"}
-	t.tokens = map[string]bool{"archetype": true}
+	t.tokens = map[string]bool{"archetype": true, "archNode": true}
+	t.view = map[string][]string{"World": {"nodePointers", "filterCache"}}
+	t.structs["World"] = true
 	t.tokExt = map[string]string{"archetype.Mask": "archMaskF", "archetype.RelationTarget": "archTargetF", "archetype.HasRelation": "archHasRelationF"}
-	t.ifaceExt = map[string]string{"Matches": "matchesF"}
+	t.ifaceExt = map[string]string{"Matches": "matchesF", "Len": "archsLenF", "Get": "archsGetF"}
+	for k, v := range map[string]string{"archNode.IsActive": "nodeActiveF", "archNode.Matches": "nodeMatchesF", "archNode.HasRelation": "nodeHasRelationF",
+		"archNode.archetypeMap": "nodeArchMapF", "archNode.Archetypes": "nodeArchetypesF", "archetype.IsActive": "archActiveF"} {
+		t.tokExt[k] = v
+	}
+	for k, v := range map[string][2]string{
+		"nodeActiveF": {"tok.nodeActive", "Option Nat → Bool"}, "nodeMatchesF": {"tok.nodeMatches", "Option Nat → GoAny → Bool"},
+		"nodeHasRelationF": {"tok.nodeHasRelation", "Option Nat → Bool"}, "nodeArchMapF": {"tok.nodeArchMap", "Option Nat → Entity → Option (Option Nat)"},
+		"nodeArchetypesF": {"tok.nodeArchetypes", "Option Nat → GoAny"}, "archActiveF": {"tok.archActive", "Option Nat → Bool"},
+		"archsLenF": {"iface.Len", "GoAny → BitVec 32"}, "archsGetF": {"iface.Get", "GoAny → BitVec 32 → Option Nat"},
+		"asCachedFilterF": {"assert.CachedFilterValue", "GoAny → Option CachedFilter"}} {
+		t.extOwner[k] = v[0]
+		t.externs[v[0]] = v[1]
+	}
 	t.externs["tok.Mask"] = "Option Nat → " + mns + ".Mask"
 	t.externs["tok.Target"] = "Option Nat → Entity"
 	t.externs["tok.HasRelation"] = "Option Nat → Bool"
@@ -1465,7 +1676,7 @@ func genPools(repo string, tiny bool) (string, []string) {
 			fmt.Fprintf(&sb, "def MaskTotalBits : Nat := %s\n\n", k.Val().ExactString())
 		}
 	}
-	for _, s := range []string{"Entity", "entityPool", "bitPool", "lockMask", "componentRegistry", "Resources", "bitSet", "idMap", "intPool", "pointers", "CachedFilter", "cacheEntry", "Cache"} {
+	for _, s := range []string{"Entity", "entityPool", "bitPool", "lockMask", "componentRegistry", "Resources", "bitSet", "idMap", "intPool", "pointers", "CachedFilter", "cacheEntry", "Cache", "World"} {
 		t.emitStruct(&sb, s)
 	}
 	funcs := []string{
@@ -1480,7 +1691,8 @@ func genPools(repo string, tiny bool) (string, []string) {
 		"pointers.Get", "pointers.Add", "pointers.RemoveAt", "pointers.Len",
 		"newComponentRegistry", "componentRegistry.ComponentType", "componentRegistry.Count", "componentRegistry.registerComponent",
 		"componentRegistry.ComponentID", "componentRegistry.unregisterLastComponent",
-		"Cache.Register", "Cache.Unregister", "Cache.mapArchetypes", "Cache.addArchetype", "Cache.removeArchetype",
+		"Cache.Register", "Cache.Unregister", "Cache.get", "Cache.mapArchetypes", "Cache.addArchetype", "Cache.removeArchetype",
+		"World.getArchetypes",
 	}
 	// which functions need the uninterpreted-function parameters (directly or through a callee)
 	calls := map[string][]string{}
